@@ -76,7 +76,7 @@ def _work(item):
 
 def check(ctx):
     T = ctx.thorough
-    depth = 4 if T else 3
+    depth = 5 if T else 4
     progs = programs(T)
     items = [(shape, prog, entries, "rc", depth) for shape, prog, entries in progs]
     rep = Report()
